@@ -30,8 +30,8 @@ def key : Pct → Nat
   | some q => q
 
 /-- The loop of `UnmarshalJSON` over `resp.Percentiles` (`p["min"] = p["value"]` …).
-`fixed = false`: the tree before `fixes/F24`: the first nil map is written to.
-`fixed = true`: nil maps are dropped from the slice (F24). -/
+`fixed = false`: the tree before `fixes/F53`: the first nil map is written to.
+`fixed = true`: nil maps are dropped from the slice (F53). -/
 def unmarshal (fixed : Bool) : List Pct → Except Fault (List Pct)
   | [] => .ok []
   | none :: rest =>
